@@ -78,6 +78,8 @@ structure OSt where
   unprocessed : List Nat := []
   /-- an incarnation died while its completion report was still unprocessed -/
   stale : Bool := false
+  /-- the pool had size 0 and a resize request of this step gave it its first workers -/
+  grewFromZero : Bool := false
   bad : List String := []
   deriving Repr
 
@@ -124,7 +126,8 @@ def oStep (s : OSt) : Ev → OSt
     let s := { s with stepOps := s.stepOps + 1 }
     -- a request sent to a busy factory takes effect when its turn comes
     if s.blocked then { s with pendingReq := s.pendingReq ++ [n] }
-    else if n == 0 then s else { s with requested := min n GLOBAL_WORKER_POOL_MAXIMUM }
+    else if n == 0 then s
+    else { s with requested := min n GLOBAL_WORKER_POOL_MAXIMUM, grewFromZero := s.grewFromZero || s.requested == 0 }
   | .released n =>
     let s := { s with stepOps := s.stepOps + 1 }
     let s := match s.pendingHandler.getLast? with
@@ -259,6 +262,16 @@ def oStep (s : OSt) : Ev → OSt
           else s
         { s with prevWq := wq }
       | none => s
+    -- C14 round-robin on the backlog path: a pool that gets its first workers takes the waiting backlog in
+    -- turns — afterwards no worker holds (running + queued) two jobs more than another
+    let s := match wq with
+      | some wq =>
+        if s.info.router == RouterKind.rr && s.grewFromZero && s.stepOps == 1 && up && !blocked && !wq.isEmpty then
+          let load := wq.map fun (x : Nat × Nat) =>
+            x.2 + (if s.running.any (fun r => (s.widOf.find? (fun (y : Nat × Nat) => y.1 == r.1)).map (fun (y : Nat × Nat) => y.2) == some x.1) then 1 else 0)
+          if load.foldl max 0 ≤ load.foldl min (load.foldl max 0) + 1 then s else s.flag "c14-round-robin-uneven"
+        else s
+      | none => s
     -- C15 limit, Oldest: a dispatch that ends in the factory queue leaves it within L (a backlog
     -- that is deeper because the limit was lowered is trimmed by the very next such dispatch)
     let s := match q, s.stepDispatch.bind s.getJob, s.disc with
@@ -282,7 +295,7 @@ def oStep (s : OSt) : Ev → OSt
         if s.info.router == RouterKind.rr && n1 == n2 && n1 > 0 && w2 != rrNext w1 n1 then s.flag "c14-round-robin-skip" else s
       | _, _ => s
     { s with up := up, blocked := blocked, step := s.step + 1, stepDispatch := none, stepOps := 0,
-             discChanged := false, prevRR := s.curStart, curStart := none, handlerFuzzy := false }
+             discChanged := false, prevRR := s.curStart, curStart := none, handlerFuzzy := false, grewFromZero := false }
 
 def oInit (info : Info) : OSt :=
   { info, requested := info.n, disc := info.disc, handler := if info.hasHandler then some 0 else none,
